@@ -342,3 +342,44 @@ Proof.
   rewrite (reference_meaning fuel d reg Hc Hnd H f nm Hin Hnm).
   apply resolve_spec. exact Hnd.
 Qed.
+
+(* ---- checkers --------------------------------------------------------------- *)
+
+Lemma getf_cases : forall d f, In (getf d f) d \/ getf d f = empty_file.
+Proof.
+  intros d f. unfold getf. destruct (Nat.lt_ge_cases f (length d)) as [H|H].
+  - left. apply nth_In. exact H.
+  - right. apply nth_overflow. exact H.
+Qed.
+
+Lemma no_dotted_check_sound : forall d, no_dotted_check d = true -> no_dotted_names d.
+Proof.
+  intros d H f nm Hl. unfold no_dotted_check in H. rewrite forallb_forall in H.
+  destruct (getf_cases d f) as [Hin|He].
+  - specialize (H _ Hin). apply andb_true_iff in H. destruct H as [Hp Ht].
+    rewrite forallb_forall in Hp, Ht.
+    unfold local_lookup in Hl.
+    destruct (existsb (fun pr => name_eqb (fst pr) nm) (f_prods (getf d f))) eqn:Ep.
+    + apply existsb_exists in Ep. destruct Ep as [pr [Hpr E]]. apply name_eqb_eq in E.
+      specialize (Hp _ Hpr). rewrite E in Hp. destruct nm as [|x [|y r]]; try discriminate.
+      exists x. reflexivity.
+    + destruct (find (fun t => name_eqb (fst t) nm) (f_terms (getf d f))) as [t|] eqn:Ef.
+      * apply find_some in Ef. destruct Ef as [Hin' E]. apply name_eqb_eq in E.
+        specialize (Ht _ Hin'). rewrite E in Ht. destruct nm as [|x [|y r]]; try discriminate.
+        exists x. reflexivity.
+      * destruct nm as [|x [|y r]]; try (exfalso; apply Hl; reflexivity).
+        exists x. reflexivity.
+  - rewrite He in Hl. exfalso. apply Hl. unfold local_lookup. simpl.
+    destruct nm as [|x [|y r]]; reflexivity.
+Qed.
+
+Lemma imports_consistent_check_sound : forall d,
+  imports_consistent_check d = true -> imports_consistent d.
+Proof.
+  intros d H f m t Hin. unfold imports_consistent_check in H. rewrite forallb_forall in H.
+  destruct (getf_cases d f) as [Hf|He].
+  - specialize (H _ Hf). rewrite forallb_forall in H. specialize (H _ Hin). simpl in H.
+    unfold imp_target. destruct (find_import (getf d f) m) as [[i t']|]; [|discriminate].
+    apply Nat.eqb_eq in H. subst. reflexivity.
+  - rewrite He in Hin. destruct Hin.
+Qed.
